@@ -474,15 +474,15 @@ def run(ctx):
                 if l:
                     hists.append((l, "corpus"))
     g = Gen(rng)
-    for _ in range(ctx.n(1500, 30000)):
+    for _ in range(ctx.n(1500, 18000)):
         hists.append((g.history(), "tj"))
-    for _ in range(ctx.n(40, 600)):
+    for _ in range(ctx.n(40, 300)):
         hists.append((g.mem_history(), "mem"))
-    for _ in range(ctx.n(120, 2000)):
+    for _ in range(ctx.n(120, 1200)):
         hists.append((g.marker_history(), "markers"))
     for _ in range(ctx.n(40, 600)):
         hists.append((g.raw_marker_history(), "raw"))
-    for _ in range(ctx.n(300, 5000)):
+    for _ in range(ctx.n(300, 3000)):
         hists.append((g.raw_history(), "raw"))
     return run_hists(ctx, hists, exes, drv, flavours)
 
